@@ -403,6 +403,25 @@ async fn run_ss(args: &[&str]) -> String {
                 let x = &sides[idx(p[1])];
                 out.push(format!("v{}", x.sess.peer_version()));
             }
+            // literal payloads: P = write_data_frame, U = Stream::send_data
+            "P" => {
+                let x = &mut sides[idx(p[1])];
+                let sid: u32 = p[2].parse().unwrap();
+                let r = x.sess.write_data_frame(sid, Bytes::from(unhex(p[3]))).await;
+                out.push(if r.is_ok() { "w+" } else { "w-" }.to_string());
+            }
+            "U" => {
+                let x = &mut sides[idx(p[1])];
+                let sid: u32 = p[2].parse().unwrap();
+                let k: usize = p[3].parse().unwrap();
+                match x.objs.get_mut(&sid).and_then(|v| v.get_mut(k)) {
+                    None => out.push("s-".to_string()),
+                    Some(o) => {
+                        let r = o.stream.send_data(Bytes::from(unhex(p[4])));
+                        out.push(format!("s{}", if r.is_ok() { "+" } else { "-" }));
+                    }
+                }
+            }
             "Q" => {
                 tokio::time::sleep(ms(p[1].parse().unwrap())).await;
                 out.push("q".to_string());
